@@ -75,6 +75,14 @@ class FieldArrayModel(FieldCompositeModel):
             self.product_expr = None
             self.product_expr_btor = None
         
+    def trim_to_size(self):
+        """Drops the elements a random-size list was grown by for a
+        solve beyond the size it ended up with"""
+        if self.is_rand_sz and self.is_scalar:
+            sz = int(self.size.get_val())
+            if sz < len(self.field_l):
+                del self.field_l[sz:]
+
     def name_elems(self):
         """Apply an index-based name to all fields"""
         for i,f in enumerate(self.field_l):
